@@ -170,11 +170,14 @@ Definition blas_info (bdt : bool) (flags : list (bool * bool)) : blasinfo :=
   let view := match blas_ravel_order (snd fo) with OrdF => snd fo | OrdC => fst fo end in
   {| bi_view := view; bi_call := view && bdt |}.
 
-Definition lincomb_impl (cast : T -> T) (fl bdt : bool) (flags : list (bool * bool))
+(* [size] is x1.size; it only selects the regime *)
+Definition lincomb_impl_sz (cast : T -> T) (fl bdt : bool) (flags : list (bool * bool)) (size : Z)
            (a : T) (x1 : nat) (b : T) (x2 : nat) (out : nat) (s : store) : outcome :=
-  let size := Z.of_nat (length (s x1)) in
   lincomb_fuel 2 cast (regime_of size fl (blas_applicable true bdt size flags)) (blas_info bdt flags)
     {| e_a := a; e_b := b; e_x1 := x1; e_x2 := x2; e_out := out |} s.
+Definition lincomb_impl (cast : T -> T) (fl bdt : bool) (flags : list (bool * bool))
+           (a : T) (x1 : nat) (b : T) (x2 : nat) (out : nat) (s : store) : outcome :=
+  lincomb_impl_sz cast fl bdt flags (Z.of_nat (length (s x1))) a x1 b x2 out s.
 
 (* np.multiply(x1.data, x2.data, out=out.data), np.divide(...) *)
 Definition multiply_impl (x1 x2 out : nat) (s : store) : outcome :=
